@@ -703,25 +703,24 @@ func (cm *circuitMap) TrimOpenCircuits(chanID lnwire.ShortChannelID,
 
 	var trimmedOutKeys []CircuitKey
 
-	// Scan forward from the last unacked htlc id, stopping as soon as we
-	// don't find any more. Outgoing htlc id's must be assigned in order,
-	// so there should never be disjoint segments of keystones to trim.
+	// Trim every keystone of this channel at or above the last unacked
+	// htlc id. Although outgoing htlc id's are assigned in order, the
+	// keystones to trim are not necessarily contiguous: a circuit whose
+	// incoming channel was fully closed is purged together with its
+	// keystone on startup, which may leave a gap below keystones that
+	// still need to be rolled back.
 	cm.mtx.Lock()
-	for i := start; ; i++ {
-		outKey := CircuitKey{
-			ChanID: chanID,
-			HtlcID: i,
+	for outKey, circuit := range cm.opened {
+		if outKey.ChanID != chanID || outKey.HtlcID < start {
+			continue
 		}
 
-		circuit, ok := cm.opened[outKey]
-		if !ok {
-			break
-		}
-
+		// The hash index is keyed by the circuit's outgoing key, so the
+		// entry must be removed before the keystone is cleared.
+		cm.removeCircuitFromHashIndex(circuit)
 		circuit.Outgoing = nil
 		delete(cm.opened, outKey)
 		trimmedOutKeys = append(trimmedOutKeys, outKey)
-		cm.removeCircuitFromHashIndex(circuit)
 	}
 	cm.mtx.Unlock()
 
